@@ -77,6 +77,7 @@ def fq_judge(line, obs):
     labels = [x.strip() for x in line.split(" / ")[1:]]
     arrived = {}
     removed = set()
+    inserted = set()
     for lab in labels:
         for p in (lab[lab.index("~") + 1:].split("~") if lab.startswith("P:") and "~" in lab else [lab]):
             if p.startswith("A"):
@@ -84,6 +85,8 @@ def fq_judge(line, obs):
                 arrived.setdefault(int(k), []).append(int(x))
             elif p.startswith("R"):
                 removed.add(int(p[1:]))
+            elif p.startswith("I"):
+                inserted.add(int(p[1:]))
     delivered = {}
     for tk in obs.split():
         body = tk.split("@")[0]
@@ -106,6 +109,10 @@ def fq_judge(line, obs):
                 continue
             if len(delivered.get(int(kk), [])) + int(n) != len(arrived.get(int(kk), [])):
                 return "stream %s: delivered + left != arrived" % kk
+            if int(n) > 0 and " noblock" not in line.split(" / ")[0] and int(kk) in inserted:
+                # the drain re-polls the receiver whenever its waker was invoked, until nothing moves any more
+                return ("stream %s: %s complete item(s) of a registered stream were never returned although the receiver kept "
+                        "receiving (re-polled whenever woken)" % (kk, n))
     return None
 
 
